@@ -24,6 +24,14 @@ Configuration dimension (KTableHistory.tla: interp x route x extra, (T, P) posit
       by harness/fx_c20cfg.py on table objects and forward models of both families built from pickle AND HDF5 files
       through the caches (clause twin_under_configuration, events validated by TLC); history scenarios with a
       `config` setting change it between evaluations of long-lived objects.
+Contribution-list dimension (KTableHistory.tla: clist over CLists, PathRead mutants "k-overwrites", "last-continuum",
+      "stops-at-k" refuted, ListBlind / OrderFree hold): WHAT ELSE absorbs next to the tabulated molecule and in which
+      order the model holds its contributions.  The exported alphabet (tag LST: continuum terms before / after the
+      molecular one, two or more of them) is realised (a) with real Rayleigh / flat-Mie / CIA contributions in twin
+      pairs of both families (clause twin_under_contributions, fx_c20hist.ListSweep) and in history scenarios with a
+      `contribs` setting, and (b) in the exact vectors of KTable.tla: the exported second contribution c is the SUM of
+      two LayerContribution objects placed around the absorption in the order the vector's list says; the kernel is
+      called on a path that already holds optical depth and must leave every other row of the array untouched.
 """
 import math
 import os
@@ -55,7 +63,7 @@ class Twin:
     """For one temperature profile: emission + transmission models in k-table mode (pickle file in a
     temporary directory) and in cross-section mode (GridOpacity on the same grid), sharing geometry."""
 
-    def __init__(self, tmpdir, temps, wn, ngauss_k, *, with_grey=True, kw=None, premade=True):
+    def __init__(self, tmpdir, temps, wn, ngauss_k, *, with_grey=True, kw=None, premade=True, order=('k', 'g1')):
         from taurex.contributions import AbsorptionContribution
         self.dir = tmpdir
         self.wn = list(wn)
@@ -82,6 +90,10 @@ class Twin:
         self.kt = fx.Atmos('transmission', temps, wn, star_T=STAR_T, with_grey=False, register=False,
                            absorption=pre[1], **kw)
         fx.set_mode('xsec')
+        self.order = tuple(order)
+        if with_grey and self.order != ('k', 'g1'):
+            for a in (self.xe, self.ke):
+                arrange(a, self.order)
 
     def write_tables(self, sigma, weights, xsec_sigma=None):
         """sigma[l][w][g] in m^2 (after mixing ratio): pickle k-table + the cross-section twin
@@ -101,9 +113,22 @@ class Twin:
         return kk * fx.LN2 / (self.cu * self.mix)[:, None, None]
 
     def set_grey(self, c):
+        """c[l][w] (ln 2 units) is the SUM of the continuum contributions the model holds: one contribution carries
+        all of it, or two carry a quarter and three quarters (exact in binary floating point)"""
         for a in (self.xe, self.ke):
             if a.grey is not None:
-                a.set_grey_tau(c)
+                g2 = getattr(a, 'grey2', None)
+                if g2 is None:
+                    a.set_grey_tau(c)
+                else:
+                    c = np.asarray(c, dtype=float)
+                    a.set_grey_tau(0.25 * c)
+                    g1 = a.grey
+                    a.grey = g2
+                    try:
+                        a.set_grey_tau(0.75 * c)
+                    finally:
+                        a.grey = g1
 
     def k_mode(self):
         fx.set_mode('ktables', self.dir)
@@ -111,6 +136,30 @@ class Twin:
     def x_mode(self):
         fx.set_mode('xsec')
 
+
+
+def arrange(atmos, order):
+    """the model of `atmos` holds its contributions in the given order ('k': the absorption, 'g1', 'g2': two
+    cross-section-like contributions with a given sigma[layer, wn]), added one by one and built again"""
+    m = atmos.model
+    parts = {'k': atmos.absorption, 'g1': atmos.grey}
+    if 'g2' in order:
+        base = fx.layer_contribution_class()
+
+        class LayerContribution2(base):
+            pass
+        atmos.grey2 = LayerContribution2('LayerGrey2')
+        atmos.grey2.table = np.zeros((atmos.n, len(atmos.wn)))
+        parts['g2'] = atmos.grey2
+    m.contribution_list = []
+    for key in order:
+        m.add_contribution(parts[key])
+    m.build()
+    if [c for c in m.contribution_list] != [parts[key] for key in order]:
+        raise Machinery('the model does not hold its contributions in the order %r' % (order,))
+
+
+PREFILL = 0.375          # optical depth the path already holds when the kernel is called (exact in binary)
 
 
 def code_raised(ctx, ex, cls, vec):
@@ -156,20 +205,28 @@ def check_vector(ctx, tw, v):
             lo, hi = bc[wi][v['tmin']], bc[wi][v['tmax']]
             ctx.verdict('emission_ktable_bounds', lo * (1 - 1e-12) <= got <= hi * (1 + 1e-12), cls='emission:%s:%s' % (cls, topc),
                         detail='got %r not in [%r, %r]' % (got, lo, hi), vector=dict(v, what='kint', a=a, w=wi))
-    # ---- transmission kernel on integer chords
-    ab, gr = tw.ke.absorption, tw.ke.grey
+    # ---- transmission kernel on integer chords: the contributions of the model, in the order the model holds them, each
+    # ADD to the row of the tangent layer, which already holds PREFILL; every other row of the array stays as it was
     for j in range(n):
         tau = np.zeros((n, nw))
+        tau[:, :] = 3.0 + np.arange(n)[:, None] + 0.125 * np.arange(nw)[None, :]
+        tau[j, :] = PREFILL
+        before = tau.copy()
         path = np.array(v['ltab'][j], dtype=float)
-        ab.contribute(tw.ke.model, 0, n - j, j, j, tw.cu, tau, path_length=path)
-        if gr is not None:
-            gr.contribute(tw.ke.model, 0, n - j, j, j, tw.cu, tau, path_length=path)
+        cu = np.array(tw.cu, dtype=float)
+        for contrib in tw.ke.model.contribution_list:
+            contrib.contribute(tw.ke.model, 0, n - j, j, j, cu, tau, path_length=path)
+        rest = np.delete(np.arange(n), j)
+        kept = np.array_equal(tau[rest], before[rest]) and np.array_equal(cu, np.asarray(tw.cu, dtype=float)) \
+            and np.array_equal(path, np.array(v['ltab'][j], dtype=float))
         for wi in range(nw):
             exp = float(fx.dyad_value(v['ktr'][j][wi]))
-            got = math.exp(-tau[j, wi])
-            ok = abs(got - exp) <= REL * max(exp, 1e-30) and 0.0 <= got <= 1.0
+            got = math.exp(-(tau[j, wi] - PREFILL))
+            ok = abs(got - exp) <= REL * max(exp, 1e-30) and 0.0 <= got <= 1.0 + 1e-12 and kept
             ctx.verdict('weighted_transmittance', ok, cls='transmission:' + cls,
-                        detail='tangent layer %d wn=%s got %r expected %r' % (j, tw.wn[wi], got, exp),
+                        detail='tangent layer %d wn=%s contributions %s on a path holding %s: got %r expected %r%s'
+                               % (j, tw.wn[wi], '+'.join(tw.order), PREFILL, got, exp,
+                                  '' if kept else '; other rows of tau / the density or path arguments were modified'),
                         vector=dict(v, what='ktr', j=j, w=wi))
     # ---- degenerate: the same numbers as cross-sections through the real models
     if v['degenerate']:
@@ -227,11 +284,13 @@ def run_vectors(ctx, cfg, label):
     if not vecs:
         raise Machinery('no vectors exported by ' + cfg)
     groups = {}
-    for v in vecs:
-        groups.setdefault((tuple(v['tp']), v['ng'], len(v['kk'][0])), []).append(v)
+    for v in vecs:          # one twin set of models per temperature profile and per contribution list of the vectors
+        groups.setdefault((tuple(v['tp']), v['ng'], len(v['kk'][0]), tuple(v['clist'])), []).append(v)
+    if len({k[3] for k in groups}) < 5 or not any(k[3][0] != 'k' for k in groups) or not any(len(k[3]) > 2 for k in groups):
+        raise Machinery('the exported vectors do not cover the contribution lists: %r' % sorted({k[3] for k in groups}))
     with fx.TempDir() as d:
-        for (tp, ng, nw), g in sorted(groups.items()):
-            tw = Twin(d, [TK[t] for t in tp], WN[:nw], ng)
+        for (tp, ng, nw, order), g in sorted(groups.items()):
+            tw = Twin(d, [TK[t] for t in tp], WN[:nw], ng, order=order)
             for v in g:
                 check_vector_safe(ctx, tw, v)
             ctx.add_sample(dict(vector=dict(kk=g[-1]['kk'], wts=g[-1]['wts'], tp=list(tp), ktr=g[-1]['ktr'][0][0])))
@@ -240,7 +299,7 @@ def run_vectors(ctx, cfg, label):
 
 def replay_vector(ctx, v):
     with fx.TempDir() as d:
-        tw = Twin(d, [TK[t] for t in v['tp']], WN[:len(v['kk'][0])], v['ng'])
+        tw = Twin(d, [TK[t] for t in v['tp']], WN[:len(v['kk'][0])], v['ng'], order=tuple(v.get('clist', ('k', 'g1'))))
         check_vector_safe(ctx, tw, v)
     fx.reset_all()
 
@@ -410,9 +469,12 @@ def run_traces(ctx, n_models, extra=()):
     tj = [e for e in tw if e['rel'] == 'jensen']
     if extra and not te and not ctx.has_violations():
         raise Machinery('no accepted twin event available for the canary')
-    if te:                # a twin differing by 2e-9, a twin on a grid of another length, twins under different configurations
+    if te:                # a twin differing by 2e-9, a twin on a grid of another length, twins under different configurations,
+                          # twins holding different contribution lists, a list outside the alphabet
         can += [dict(te[0], dev=2000), dict(te[-1], nx=te[-1]['nx'] + 1),
-                dict(te[0], cx=['exp' if te[0]['ck'][0] == 'linear' else 'linear'] + list(te[0]['ck'][1:]))]
+                dict(te[0], cx=['exp' if te[0]['ck'][0] == 'linear' else 'linear'] + list(te[0]['ck'][1:])),
+                dict(te[0], lx=list(te[0]['lk']) + ['c1' if 'c1' not in te[0]['lk'] else 'c3']),      # twins holding different lists
+                dict(te[-1], lk=[x for x in te[-1]['lk'] if x != 'k'] + ['c9'], lx=[x for x in te[-1]['lx'] if x != 'k'] + ['c9'])]
     if tj:
         can += [dict(tj[0], lo=-50)]
     ok2, bad2, _ = validate_trace('Trace_KTable', 'Trace_KTable.cfg', can) if can else (False, can, None)
@@ -424,7 +486,8 @@ def run_traces(ctx, n_models, extra=()):
 # binding C: histories
 # ----------------------------------------------------------------------------
 MUTANTS = ('RefuteSize', 'RefuteFirst', 'RefuteWindowTwin', 'RefuteLatched',
-           'RefuteKDrops', 'RefuteXDrops', 'RefuteKNoop', 'RefuteXNoop', 'RefuteKStale')
+           'RefuteKDrops', 'RefuteXDrops', 'RefuteKNoop', 'RefuteXNoop', 'RefuteKStale',
+           'RefuteOverwrite', 'RefuteLastOnly', 'RefuteStopsAtK')
 
 
 def check_history_design(ctx):
@@ -432,28 +495,31 @@ def check_history_design(ctx):
     requested points / on their end points; every under-keyed memo and the latched opacity mode are refuted by
     the window alphabet; a family whose container drops the interpolation scheme it is constructed with, or ignores
     the scheme set in place, or whose loaded tables are not reached by the session-wide call, is refuted by the
-    configuration alphabet and is invisible on temperature nodes / on the other routes (NodeBlind, RouteBlind hold).
-    Exactly the nine Refute* invariants must be violated."""
+    configuration alphabet and is invisible on temperature nodes / on the other routes (NodeBlind, RouteBlind hold);
+    a k-table path that overwrites what the path holds, keeps the last continuum term only, or stops after the
+    molecular term is refuted by the alphabet of contribution lists and is invisible with the molecular term first /
+    fewer than two continuum terms / the molecular term last (ListBlind holds; OrderFree holds).
+    Exactly the twelve Refute* invariants must be violated."""
     res = run_tlc('MC_KTableHistory', 'MC_KTableHistory_all.cfg', workers=4, coverage=True, allow_violation=True,
                   extra=['-continue'])
     ctx.add_tlc('history-design', res)
     got = set(re.findall(r'Invariant (\S+) is violated', res.out))
     if set(MUTANTS) - got or got - set(MUTANTS):
         raise Machinery('KTableHistory: expected TLC to refute exactly %r, got %r' % (sorted(MUTANTS), sorted(got)))
-    for a in ('SetWin', 'SetTP', 'SetMode', 'SetCfg', 'Eval'):
+    for a in ('SetWin', 'SetTP', 'SetMode', 'SetCfg', 'SetList', 'Eval'):
         if res.action_cov.get(a, (0, 0))[1] == 0:
             raise Machinery('vacuous: action %s of KTableHistory never taken' % a)
     if res.distinct == 0:
         raise Machinery('TLC reported 0 states for MC_KTableHistory')
 
 
-def run_histories(ctx, nwalks, thorough):
+def run_histories(ctx, nwalks, thorough, lists):
     from .. import history
     log = fh.TwinLog(ctx)
     with fx.TempDir() as root:
         fx.reset_all()
         try:
-            scs = fh.scenarios(ctx, root, log, thorough=thorough)
+            scs = fh.scenarios(ctx, root, log, thorough=thorough, lists=lists)
             # table objects are cheap to evaluate: many more walks, so that every ORDERED pair of requested grids is
             # evaluated back to back on one object (a memo keyed on too little may be exposed in one order only)
             # (the scenarios whose setting is the evaluation configuration reload their tables: as many walks as the models)
@@ -471,16 +537,43 @@ def run_histories(ctx, nwalks, thorough):
 
 
 def export_configurations(ctx):
-    """the configuration alphabet of KTableHistory with what the specification says about each class"""
+    """the configuration alphabet of KTableHistory with what the specification says about each class, and its alphabet
+    of contribution lists"""
     res = ctx.check_spec('export-configurations', 'MC_KTableHistory', 'EX_KTableHistory_cfg.cfg', workers=1)
     vecs = res.tagged('VEC')
     if len(vecs) != 16 * len(fh.INTERPS) * len(fh.ROUTES) * len(fh.EXTRAS):
         raise Machinery('EX_KTableHistory_cfg exported %d configuration classes' % len(vecs))
-    return vecs
+    lists = sorted(res.tagged('LST'), key=lambda v: v['id'])
+    if len(lists) < 5 or len({tuple(v['list']) for v in lists}) != len(lists) or lists[0]['list'] != ['k']:
+        raise Machinery('EX_KTableHistory_cfg exported the contribution lists %r' % [v.get('list') for v in lists])
+    return vecs, lists
 
 
-def run_configurations(ctx, log, thorough):
-    vecs = export_configurations(ctx)
+def run_lists(ctx, lists, log, thorough):
+    with fx.TempDir() as root:
+        fx.reset_all()
+        try:
+            sw = fh.run_lists(ctx, lists, root, log, thorough)
+        finally:
+            fx.reset_all()
+    ctx.note('contribution lists: %d exported lists, %d twin evaluations of models holding them' % (len(lists), sw.done))
+    ctx.add_sample(dict(contribution_list=lists[-1]))
+    return sw
+
+
+def replay_lists(ctx, vs):
+    log = fh.TwinLog(ctx)
+    with fx.TempDir() as root:
+        fx.reset_all()
+        try:
+            fh.replay_lists(ctx, [v['vector'] for v in vs], root, log)
+        finally:
+            fx.reset_all()
+    if log.events:
+        run_traces(ctx, 0, extra=log.events)
+
+
+def run_configurations(ctx, vecs, log, thorough):
     with fx.TempDir() as root:
         fx.reset_all()
         try:
@@ -511,7 +604,7 @@ def replay_histories(ctx, vs):
     with fx.TempDir() as root:
         fx.reset_all()
         try:
-            scs = {x.name: x for x in fh.scenarios(ctx, root, log, thorough=True)}
+            scs = {x.name: x for x in fh.scenarios(ctx, root, log, thorough=True, lists=export_configurations(ctx)[1])}
             for v in vs:
                 vec = v['vector']
                 sc = scs.get(vec['history'])
@@ -561,6 +654,11 @@ def run(ctx):
                                      'de-activated} x T position {node, between, below, above} x P position (same); containers '
                                      'pickle and HDF5; table objects, 6-layer models of both families (TemperatureArray '
                                      'profiles), and 3 of these configurations per history scenario with a config setting')
+    ctx.bounds['contribution_lists'] = ('lists over {k, c1 Rayleigh, c2 flat Mie, c3 CIA H2-H2}: k alone, one continuum term after / '
+                                        'before k, two after, k between two, two before, three around k; every list in a '
+                                        'transmission and an emission twin pair (degenerate and generic table), 3 lists per '
+                                        'history scenario with a contribs setting; exact vectors with c carried by one or two '
+                                        'contributions in 5 orders around the absorption')
     ctx.assumptions = ['k-table files: PickleKTable layout written by the harness; pressure grid = layer pressures, values constant in T',
                        'cross-section twin: GridOpacity fixture on the same grid and numbers',
                        'per-layer coefficients are scaled with the model\'s documented deltaz and densityProfile',
@@ -580,15 +678,21 @@ def run(ctx):
     ctx.expect_refuted('refute-unnormalised-weights', 'MC_KTable', 'MC_KTable_refute_weights.cfg', 'RefuteUnnormalised')
     for cfg in (['EX_KTable_quick.cfg', 'EX_KTable_quick3.cfg'] if q else ['EX_KTable_thorough.cfg', 'EX_KTable_quick3.cfg']):
         run_vectors(ctx, cfg, cfg[3:-4])
-    log = run_histories(ctx, 6 if q else 24, not q)
-    sweep = run_configurations(ctx, log, not q)
+    cvecs, lists = export_configurations(ctx)
+    log = run_histories(ctx, 6 if q else 24, not q, lists)
+    sweep = run_configurations(ctx, cvecs, log, not q)
+    lsweep = run_lists(ctx, lists, log, not q)
     run_traces(ctx, 40 if q else 400, extra=log.events)
     if not ctx.has_violations():
         sweep.self_check()          # the configuration alphabet was realised and the scheme does enter between nodes
+        lsweep.self_check(lists)    # every exported list was realised in every family and every continuum term enters
 
 
 def replay(ctx, violations):
     done_trace = False
+    swept = [v for v in violations if (v['vector'] or {}).get('contribs_sweep')]
+    if swept:
+        replay_lists(ctx, swept)
     hist = [v for v in violations if (v['vector'] or {}).get('history') and not (v['vector'] or {}).get('config')]
     if hist:
         seen, uniq = set(), []
@@ -603,7 +707,7 @@ def replay(ctx, violations):
         replay_configurations(ctx, conf)
     for v in violations:
         vec = v['vector'] or {}
-        if vec.get('history') or vec.get('config'):
+        if vec.get('history') or vec.get('config') or vec.get('contribs_sweep'):
             continue
         if vec.get('trace'):
             if not done_trace:
